@@ -166,6 +166,8 @@ pub fn extra_programs() -> Vec<Program> {
         "C R[T] R[T Z] R[Z T M Kc]",
         "A A A A A Kd R[A A A Kd]",
         "C M Kg R[Z Z Z M Kc] R[Z] R[]",
+        "C Cd Kd",
+        "C Cd Cd Kb M Kd R[Z M Kc]",
     ]
     .iter()
     .map(|s| Program::parse(s).expect("extra program"))
